@@ -374,7 +374,10 @@ class Sym:
         for g in self.cfg.guards(nid):
             if g.id in outer or isinstance(g.ast, (ast.For, ast.AsyncFor)) or g.from_assert:
                 continue
-            out.append((g.kind == "T", self.of(g.ast, g.of)))
+            pol, t = g.kind == "T", self.of(g.ast, g.of)
+            while t[:2] == ("uop", "not"):          # `if not c: continue` guards the rest by c
+                pol, t = not pol, t[2]
+            out.append((pol, t))
         # a loop over a filtered comprehension: its filter holds for every element the body sees
         for g in self.cfg.guards(nid):
             if g.id in outer or not (g.kind == "T" and isinstance(g.ast, (ast.For, ast.AsyncFor))):
@@ -523,6 +526,9 @@ class Sym:
                 cl, cr = _list_contribs(l), _list_contribs(r)
                 if cl is not None and cr is not None:
                     return ("acc", "list", cl + cr)
+                # concatenation of two tuple displays is the display of their elements
+                if l[:1] == ("tuple",) and r[:1] == ("tuple",) and not any(x[:1] == ("uop",) and x[1] == "*" for x in l[1] + r[1]):
+                    return ("tuple", tuple(l[1]) + tuple(r[1]))
             return ("op", A.BINOP_TOKEN.get(type(e.op), "?"), l, r)
         if isinstance(e, ast.UnaryOp):
             if isinstance(e.op, ast.USub) and isinstance(e.operand, ast.Constant) and isinstance(e.operand.value, (int, float)) \
@@ -792,7 +798,11 @@ class Sym:
                 finally:
                     self._acc_busy.discard((name, sd.nid))
                 if contrib is not None:
-                    return ("acc", kind, tuple(self._initial_contrib(v, sd.nid, depth, cenv)) + tuple(contrib))
+                    cs = tuple(self._initial_contrib(v, sd.nid, depth, cenv)) + tuple(contrib)
+                    if kind == "dict":      # a (key, value) pair handed to a dict (update with pairs, dict(pairs)) is the entry key -> value
+                        cs = tuple(("kv", c[1], c[2][1][0], c[2][1][1]) if (c[0] == "one" and c[2][:1] == ("tuple",) and len(c[2][1]) == 2) else c
+                                   for c in cs)
+                    return ("acc", kind, cs)
             return self._of(v, sd.nid, depth, cenv)
         return ("opaque", name)
 
